@@ -186,7 +186,7 @@ pub fn tmpl(
     }
 }
 
-pub fn templates(thorough: bool) -> Vec<Template> {
+fn base_templates(thorough: bool) -> Vec<Template> {
     let mut v = Vec::new();
     v.extend(crate::pat_basic::templates(thorough));
     v.extend(crate::pat_act::templates(thorough));
@@ -194,5 +194,51 @@ pub fn templates(thorough: bool) -> Vec<Template> {
     v.extend(crate::pat_matmul::templates(thorough));
     v.extend(crate::pat_attn::templates(thorough));
     v.extend(crate::pat_layout::templates(thorough));
+    v
+}
+
+/// Put an identity in front of every f32 graph input that the optimizer can only recognise
+/// after constant propagation: `x' = Mul(x, Cast<f32>(int64 1))`; every use of `x` by a node
+/// becomes `x'`. Two rewrites (identity elimination and the template's fusion) then meet in
+/// one optimizer pass.
+fn late_identity(mut b: Built) -> Built {
+    let inputs: Vec<String> = b.prog.inputs.iter().filter(|i| i.dt == Dt::F32).map(|i| i.name.clone()).collect();
+    let mut front = Vec::new();
+    for (k, x) in inputs.iter().enumerate() {
+        let one_i = format!("li_one_i{k}");
+        let one_f = format!("li_one_f{k}");
+        let xi = format!("{x}_li");
+        b.prog.consts.push(Const::i64(&one_i, &[], &[1]));
+        for n in b.prog.nodes.iter_mut() {
+            for i in n.ins.iter_mut() {
+                if i == x {
+                    *i = xi.clone();
+                }
+            }
+        }
+        front.push(crate::prog::NodeS { op: "Cast".into(), domain: String::new(), ins: vec![one_i], outs: vec![one_f.clone()], attrs: vec![("to".into(), AttrV::I(1))] });
+        front.push(crate::prog::NodeS { op: "Mul".into(), domain: String::new(), ins: vec![x.clone(), one_f], outs: vec![xi], attrs: vec![] });
+    }
+    front.extend(std::mem::take(&mut b.prog.nodes));
+    b.prog.nodes = front;
+    b.tags.push("late identity on inputs".into());
+    b
+}
+
+pub fn templates(thorough: bool) -> Vec<Template> {
+    let mut v = base_templates(thorough);
+    // every template once more with a late identity in front of its inputs
+    for t in base_templates(thorough) {
+        let Template { name, generator, fusion, axes, build, fired, normalize } = t;
+        v.push(Template {
+            name: format!("{name}+late-identity"),
+            generator,
+            fusion,
+            axes,
+            build: Box::new(move |pt| build(pt).map(late_identity)),
+            fired,
+            normalize,
+        });
+    }
     v
 }
